@@ -19,6 +19,9 @@ from .smt import CX
 from .values import SArr
 
 
+NUMERIC_UF = {}   # name of an uninterpreted function symbol -> callable(*numeric args) -> float (registered by the specs)
+
+
 class NumEnv:
     def __init__(self, interner=None, seed=0):
         self.arrays = {}       # uf name -> callable(*idx) -> float
@@ -33,6 +36,8 @@ class NumEnv:
         f = self.arrays.get(name)
         if f is not None:
             return f(*idx)
+        if name.startswith(("NV!", "BV!")):
+            raise ValueError(f"index variable {name} has no value here (a decision on a symbolic index in a numeric run)")
         # (zlib.crc32, not hash(): str hashes are randomised per process and a replay must see the same inputs)
         h = zlib.crc32(repr((name, tuple(int(i) for i in idx), self.seed)).encode()) % 2001
         if name.startswith("RND_U["):
@@ -151,6 +156,10 @@ class NumEnv:
                 return (self.ev(ch[0]), self.ev(ch[1]))
             if "#" in name:
                 return self.operator(t, name, [self.ev(c) for c in ch])
+            if name in NUMERIC_UF:    # spec-level function symbols with a registered numeric meaning (e.g. contour partial sums)
+                return NUMERIC_UF[name](*[self.ev(c) for c in ch])
+            if any(c.sort() != z3.IntSort() for c in ch):
+                raise ValueError(f"function symbol {name} with real arguments has no numeric interpretation")
             return self.array_value(name, tuple(int(self.ev(c)) for c in ch))
         raise ValueError(f"cannot evaluate operator kind {k}: {t.decl().name()}")
 
@@ -180,12 +189,26 @@ class NumEnv:
                     fr = Fraction(float(v)).limit_denominator(10**12)
                     subs_p.append((ph, z3.RealVal(f"{fr.numerator}/{fr.denominator}")))
             core_p = z3.substitute(canon, *subs_p) if subs_p else canon
-            for pt in itertools.product(*[range(s) for s in sizes]):
-                c = z3.substitute(core_p, *[(bv, z3.IntVal(int(x))) for bv, x in zip(bvars, pt)]) if pt else core_p
-                sub = NumEnv(self.interner, self.seed)
-                sub.arrays = self.arrays
-                sub.op_cache = self.op_cache
-                grid[pt] = sub.ev(c)
+            done = False
+            if sizes and all(s > 0 for s in sizes):
+                # the core is evaluated ONCE over the whole index grid (numpy broadcasting over the bound variables);
+                # anything the vectorised evaluator does not cover falls back to the point-by-point loop below
+                try:
+                    mesh = np.meshgrid(*[np.arange(s) for s in sizes], indexing="ij")
+                    bind = {bv.decl().name(): m for bv, m in zip(bvars, mesh)}
+                    with np.errstate(all="ignore"):
+                        v = _Vec(self, bind).ev(core_p)
+                    grid = np.array(np.broadcast_to(np.asarray(v, dtype=float), sizes), dtype=float)
+                    done = True
+                except _NoVec:
+                    done = False
+            if not done:
+                for pt in itertools.product(*[range(s) for s in sizes]):
+                    c = z3.substitute(core_p, *[(bv, z3.IntVal(int(x))) for bv, x in zip(bvars, pt)]) if pt else core_p
+                    sub = NumEnv(self.interner, self.seed)
+                    sub.arrays = self.arrays
+                    sub.op_cache = self.op_cache
+                    grid[pt] = sub.ev(c)
             grid = self.transform(opname, grid, keyparams[nt:])
             self.op_cache[ck] = grid
         return float(grid[tuple(out_idx)]) if out_idx else float(grid)
@@ -208,11 +231,233 @@ class NumEnv:
         raise ValueError(f"operator {opname} has no numeric interpretation")
 
 
+class _NoVec(Exception):
+    """the term contains something the vectorised evaluator does not cover"""
+
+
+class _Vec:
+    """the same interpretation as NumEnv._ev, with the bound index variables of an operator core bound to numpy index
+    grids: every node of the core is visited once and evaluated for all grid points at a time"""
+
+    def __init__(self, env, bind):
+        self.env, self.bind, self.memo, self.keep = env, bind, {}, []
+
+    def ev(self, t):
+        if isinstance(t, (bool, int, float)):
+            return t
+        if isinstance(t, Fraction):
+            return float(t)
+        i = t.get_id()
+        if i in self.memo:
+            return self.memo[i]
+        r = self._ev(t)
+        self.memo[i] = r
+        self.keep.append(t)
+        return r
+
+    @staticmethod
+    def _isarr(v):
+        return isinstance(v, np.ndarray)
+
+    def _close(self, a, b):
+        a, b = np.asarray(a, dtype=float), np.asarray(b, dtype=float)
+        return np.abs(a - b) <= 1e-12 * np.maximum(1.0, np.maximum(np.abs(a), np.abs(b)))
+
+    def _ev(self, t):
+        env = self.env
+        if z3.is_int_value(t):
+            return t.as_long()
+        if z3.is_rational_value(t):
+            return t.numerator_as_long() / t.denominator_as_long()
+        if z3.is_true(t):
+            return True
+        if z3.is_false(t):
+            return False
+        if not z3.is_app(t):
+            raise _NoVec()
+        k = t.decl().kind()
+        ch = t.children()
+        if k == z3.Z3_OP_ADD:
+            r = 0
+            for c in ch:
+                r = r + self.ev(c)
+            return r
+        if k == z3.Z3_OP_MUL:
+            r = 1
+            for c in ch:
+                r = r * self.ev(c)
+            return r
+        if k == z3.Z3_OP_SUB:
+            r = self.ev(ch[0])
+            for c in ch[1:]:
+                r = r - self.ev(c)
+            return r
+        if k == z3.Z3_OP_UMINUS:
+            return -self.ev(ch[0])
+        if k == z3.Z3_OP_DIV:
+            a, d = self.ev(ch[0]), self.ev(ch[1])
+            if not self._isarr(a) and not self._isarr(d):
+                return a / d if d != 0 else float("nan")
+            d = np.asarray(d, dtype=float)
+            return np.where(d != 0, np.asarray(a, dtype=float) / np.where(d != 0, d, 1.0), np.nan)
+        if k == z3.Z3_OP_IDIV:
+            a, d = self.ev(ch[0]), self.ev(ch[1])
+            return np.floor_divide(np.asarray(a).astype(np.int64), np.asarray(d).astype(np.int64)) if (self._isarr(a) or self._isarr(d)) else int(a) // int(d)
+        if k == z3.Z3_OP_MOD:
+            a, d = self.ev(ch[0]), self.ev(ch[1])
+            return np.mod(np.asarray(a).astype(np.int64), np.asarray(d).astype(np.int64)) if (self._isarr(a) or self._isarr(d)) else int(a) % int(d)
+        if k == z3.Z3_OP_POWER:
+            a, p = self.ev(ch[0]), self.ev(ch[1])
+            if self._isarr(a) or self._isarr(p):
+                return np.power(np.asarray(a, dtype=float), p)
+            return a ** p
+        if k == z3.Z3_OP_TO_REAL:
+            v = self.ev(ch[0])
+            return v.astype(float) if self._isarr(v) else float(v)
+        if k == z3.Z3_OP_TO_INT:
+            v = self.ev(ch[0])
+            return np.floor(v).astype(np.int64) if self._isarr(v) else math.floor(v)
+        if k == z3.Z3_OP_ITE:
+            c = self.ev(ch[0])
+            if not self._isarr(c):
+                return self.ev(ch[1]) if c else self.ev(ch[2])
+            return np.where(c, self.ev(ch[1]), self.ev(ch[2]))
+        if k == z3.Z3_OP_AND:
+            r = True
+            for c in ch:
+                r = np.logical_and(r, self.ev(c))
+            return r if self._isarr(r) else bool(r)
+        if k == z3.Z3_OP_OR:
+            r = False
+            for c in ch:
+                r = np.logical_or(r, self.ev(c))
+            return r if self._isarr(r) else bool(r)
+        if k == z3.Z3_OP_NOT:
+            v = self.ev(ch[0])
+            return np.logical_not(v) if self._isarr(v) else (not v)
+        if k == z3.Z3_OP_IMPLIES:
+            r = np.logical_or(np.logical_not(self.ev(ch[0])), self.ev(ch[1]))
+            return r if self._isarr(r) else bool(r)
+        if k in (z3.Z3_OP_EQ, z3.Z3_OP_DISTINCT):
+            a, b = self.ev(ch[0]), self.ev(ch[1])
+            if isinstance(a, (bool, np.bool_)) or isinstance(b, (bool, np.bool_)) or (self._isarr(a) and a.dtype == bool) or (self._isarr(b) and b.dtype == bool):
+                r = np.equal(a, b)
+            else:
+                r = self._close(a, b)
+            r = r if k == z3.Z3_OP_EQ else np.logical_not(r)
+            return r if (self._isarr(a) or self._isarr(b)) else bool(r)
+        if k in (z3.Z3_OP_LE, z3.Z3_OP_LT, z3.Z3_OP_GE, z3.Z3_OP_GT):
+            a, b = self.ev(ch[0]), self.ev(ch[1])
+            r = {z3.Z3_OP_LE: lambda: a <= b + 1e-12, z3.Z3_OP_LT: lambda: a < b - 1e-12,
+                 z3.Z3_OP_GE: lambda: a >= b - 1e-12, z3.Z3_OP_GT: lambda: a > b + 1e-12}[k]()
+            return r if self._isarr(r) else bool(r)
+        if k == z3.Z3_OP_UNINTERPRETED:
+            name = t.decl().name()
+            if not ch:
+                if name in self.bind:
+                    return self.bind[name]
+                return env.ev(t)            # PI, NAN!, parameter-less operator symbols, named scalars: as in the scalar evaluator
+            args = [self.ev(c) for c in ch]
+            anyarr = any(self._isarr(a) for a in args)
+            if not anyarr:
+                return self._scalar_app(t, name, args)
+            f1 = {"ER": np.exp, "COS": np.cos, "SIN": np.sin, "LOG": np.log}.get(name)
+            if f1 is not None:
+                return f1(np.asarray(args[0], dtype=float))
+            if name == "SQRT":
+                a = np.asarray(args[0], dtype=float)
+                return np.where(a >= 0, np.sqrt(np.where(a >= 0, a, 0.0)), np.nan)
+            if name == "RPOW":
+                return np.power(np.asarray(args[0], dtype=float), args[1])
+            if name == "ROUND":
+                return args[0]
+            if name == "PAIR":
+                raise _NoVec()
+            if "#" in name:
+                return self._operator_app(t, name, args)
+            if name in NUMERIC_UF:
+                return np.vectorize(NUMERIC_UF[name], otypes=[float])(*args)
+            if any(c.sort() != z3.IntSort() for c in ch):
+                raise _NoVec()
+            return np.vectorize(lambda *ix: env.array_value(name, tuple(int(v) for v in ix)), otypes=[float])(*args)
+        raise _NoVec()
+
+    def _scalar_app(self, t, name, args):
+        """application whose arguments are all scalars here: evaluate through the scalar evaluator's operator / symbol rules"""
+        env = self.env
+        if name in ("ER", "COS", "SIN", "LOG", "SQRT", "RPOW", "ROUND"):
+            f = {"ER": math.exp, "COS": math.cos, "SIN": math.sin, "LOG": math.log}.get(name)
+            if f is not None:
+                return f(args[0])
+            if name == "SQRT":
+                return math.sqrt(args[0]) if args[0] >= 0 else float("nan")
+            if name == "RPOW":
+                return args[0] ** args[1]
+            return args[0]
+        if name == "PAIR":
+            raise _NoVec()
+        if "#" in name:
+            return env.operator(t, name, args)
+        if name in NUMERIC_UF:
+            return NUMERIC_UF[name](*args)
+        if any(c.sort() != z3.IntSort() for c in t.children()):
+            raise _NoVec()
+        return env.array_value(name, tuple(int(v) for v in args))
+
+    def _operator_app(self, t, name, args):
+        env = self.env
+        info = env.interner.info.get(name) if env.interner is not None else None
+        if info is None:
+            raise _NoVec()
+        n_params = len(info[2])
+        pvals, out_idx = args[:n_params], args[n_params:]
+        if any(self._isarr(p) for p in pvals):
+            # the explicit parameters vary over the grid: point by point
+            bshape = np.broadcast(*[np.asarray(a) for a in args]).shape
+            bargs = [np.broadcast_to(np.asarray(a), bshape) for a in args]
+            out = np.empty(bshape, dtype=float)
+            for pt in itertools.product(*[range(s) for s in bshape]):
+                out[pt] = env.operator(t, name, [a[pt].item() for a in bargs])
+            return out
+        # one grid for these parameter values, then gather at the (array-valued) output indices
+        probe = [0] * len(out_idx)
+        env.operator(t, name, list(pvals) + probe)
+        grid = env.op_cache[(name, tuple(pvals))]
+        if not out_idx:
+            return float(grid)
+        ix = np.broadcast_arrays(*[np.asarray(a).astype(np.int64) for a in out_idx])
+        ok = np.ones(ix[0].shape, dtype=bool)
+        for a, s in zip(ix, grid.shape):
+            ok &= (a >= 0) & (a < s)
+        safe = tuple(np.where(ok, a, 0) for a in ix)
+        return np.where(ok, grid[safe], np.nan)
+
+
 def to_numpy(x, env):
     """concrete-shaped SArr -> numpy array"""
     A = values.const_arr(x)
     shape = tuple(int(d) for d in A.shape)
-    out = np.empty(shape, dtype=complex if A.kind == "complex" else (bool if A.kind == "bool" else float))
+    dt = complex if A.kind == "complex" else (bool if A.kind == "bool" else float)
+    n = 1
+    for s in shape:
+        n *= s
+    if n > 16:
+        # the element term is built once for SYMBOLIC indices and evaluated over the whole index grid; any step that needs
+        # a concrete index (a Python-level decision in the element function) falls back to the point-by-point loop
+        try:
+            ivars = [z3.Int(f"NV!{k}") if s > 1 else 0 for k, s in enumerate(shape)]
+            el = A.at_(tuple(ivars))
+            mesh = np.meshgrid(*[np.arange(s) for s in shape], indexing="ij")
+            vec = _Vec(env, {f"NV!{k}": m for k, m in enumerate(mesh) if shape[k] > 1})
+            with np.errstate(all="ignore"):
+                if isinstance(el, CX):
+                    v = np.asarray(vec.ev(el.re), dtype=float) + 1j * np.asarray(vec.ev(el.im), dtype=float)
+                else:
+                    v = np.asarray(vec.ev(el))
+            return np.array(np.broadcast_to(v, shape), dtype=dt)
+        except Exception:
+            pass
+    out = np.empty(shape, dtype=dt)
     for idx in itertools.product(*[range(s) for s in shape]):
         out[idx] = env.ev(A.at_(idx))
     return out
